@@ -12,7 +12,7 @@
    cpre/cpost, output finalisation finout, for both values of finalize_correlation_subqueries, and for
    collections of any length with any reference structure (forward and self references included). *)
 From Coq Require Import NArith List Bool Sorted.
-From PS Require Import Base.Outcome Model.Collection Spec.Collection Proofs.CollectionP.
+From PS Require Import Base.Outcome Model.Collection Spec.Collection Proofs.CollectionP Proofs.ClosureP.
 Import ListNotations.
 
 (* collecting mode: the result is the concatenation, in collection order, of the queries each rule yields on its
@@ -146,3 +146,30 @@ Theorem C08_stored_independent_of_output :
     stored (finish query drule crule finq fcs p out br raw) = stored (finish query drule crule finq fcs p out' br raw).
 Proof. exact stored_out_irrelevant. Qed.
 Print Assumptions C08_stored_independent_of_output.
+
+(* isolation for every rule, correlation rules included: the dependency tree of rule i - hence its outcome, stored
+   result, emitted queries and error record - is determined by the rules reachable from i through backward
+   references (and the reference structure); whatever happens to any other rule, at any position, is irrelevant *)
+Theorem C08_isolation_closure :
+  forall (drule crule : Type) (C C' : list (rule drule crule)),
+    Forall2 (same_shape drule crule) C C' ->
+    forall i, (forall k, reach drule crule C i k -> nth_error C k = nth_error C' k) ->
+    nth_error (trees drule crule C) i = nth_error (trees drule crule C') i.
+Proof. exact closure_isolation. Qed.
+Print Assumptions C08_isolation_closure.
+
+(* non-vacuity: a collection with a failing rule in the middle, a rule referred to with generate: true and a
+   correlation rule satisfies the premises, and the statement gives a non-trivial result *)
+Example C08_premises_inhabited :
+  let conv1 := fun d : nat => if Nat.eqb d 0 then SigmaErr 2%N else Ok [d; S d] in
+  let finq := fun (_ : payload nat unit) (_ : nat) (q : nat) => Ok (q + 100) in
+  let cpre := fun _ : unit => Ok tt in
+  let cpost := fun (_ : unit) (qss : list (list nat)) => Ok [length (concat qss)] in
+  let C := [Det 1; Det 0; Det 5; Cor tt [2; 1] true; Cor tt [0] false] in
+  forallb (fun t => negb (is_crash (ret (alone nat nat unit conv1 finq cpre cpost false t)))) (trees nat unit C) = true /\
+  exp_queries nat nat unit conv1 finq cpre cpost false (trees nat unit C) = [105; 106; 102] /\
+  exp_errors nat nat unit conv1 finq cpre cpost false 0 (trees nat unit C) = [(1, 2%N); (3, E_Conversion)] /\
+  convert nat nat unit (list nat) conv1 finq cpre cpost (fun qs => Ok qs) false true C =
+  ({| results := [Some [1; 2]; None; Some [5; 6]; None; Some [102]]; errors := [(1, 2%N); (3, E_Conversion)];
+      emitted := [105; 106; 102] |}, Ok [105; 106; 102]).
+Proof. vm_compute. repeat split. Qed.
